@@ -59,7 +59,8 @@ from concurrent.futures import ThreadPoolExecutor
 
 import vlib
 
-NN, NA, MAXT = 3, 3, 6
+NN, NA, MAXT = 3, 3, 24     # names, addresses, abstract times of the traces
+GEN_MAXT = 6                  # times the generator uses; MAXT beyond it is for inputs the family appends
 PREFIX = {"C10": "C10_", "C11": "C11_", "C12": "C12_", "C13": "C13_"}
 TAG_TEXT = {"rm_window": "crash between the remove of the old snapshot and the rename of the new one (compact())",
             "swap_fault": "the failed operation was the remove/rename/reopen of compact()'s swap",
@@ -175,7 +176,7 @@ def flatten(beh):
 
 
 def simulate(ctx, kinds, num, depth, faults=0, crash=False, leave=False, sess=4):
-    c = consts(NN, NA, MAXT, depth, sess, faults, crash, leave, "{0, 60, 100000}", "{FALSE, TRUE}", bpn=40)
+    c = consts(NN, NA, GEN_MAXT, depth, sess, faults, crash, leave, "{0, 60, 100000}", "{FALSE, TRUE}", bpn=40)
     c += "CONSTANT GenKinds = {%s}\nINIT GenInit\nNEXT GenNext\n" % ", ".join(str(k) for k in kinds)
     _, behs = vlib.simulate_schedules(ctx, "Gen_Snapshot", c, num, int(depth * 2.6) + 4, timeout=1800)
     res = []
@@ -437,7 +438,7 @@ def run_c10(ctx, binary):
            "every restart state is compared by TLC with the state the inputs imply; distinct = distinct (history, threshold, "
            "name class)",
            {"model_constants": "exhaustive: 2 names x 2 addresses, times 0..%d, <=%d inputs, 2 sessions, thresholds {0,60,never} "
-                               "with 40 bytes/node; simulation: 3 names x 3 addresses, times 0..6 mapped to 64-bit values" % (2 if th else 1, 6 if th else 5),
+                               "with 40 bytes/node; simulation: 3 names x 3 addresses, times 0..6 (0..24 with the appended inputs) mapped to 64-bit values" % (2 if th else 1, 6 if th else 5),
             "evaluations": summ["restarts"], "histories_differing_across_thresholds": differ,
             "newline_class_schedules": len([s for s in scheds if s["cfg"]["cls"] == "newline"])},
            ASSUME)
@@ -535,9 +536,13 @@ def run_c13(ctx, binary):
             # a leave somewhere in the last session, events and ticks may follow it
             last_start = max(j for j, st in enumerate(steps) if st["a"] == "started")
             steps.insert(rng.randint(last_start + 1, len(steps)), {"a": "leave", "fail": 0})
+        if i % 3 != 2 and is_up(steps) and any(st["a"] == "leave" for st in steps):
+            # clock changes after the leave: the ticks keep appending (and compacting) behind the `leave` line
+            for v in range(GEN_MAXT + 1, MAXT + 1):
+                steps += [{"a": "wit", "v": v}, {"a": "tick", "fail": 0}]
         steps = close_session(steps)
         if i % 2 == 0:      # a further session appends after the `leave` line
-            steps += [feed(1, [[1 + i % NN, 1]]), feed(6, [], 1 + i % MAXT), {"a": "tick", "fail": 0}]
+            steps += [feed(1, [[1 + i % NN, 1]]), feed(6, [], 1 + i % GEN_MAXT), {"a": "tick", "fail": 0}]
             steps = close_session(steps)
         scheds.append(mk(i, steps, THRESHOLDS[i % 3], (i // 3) % 2 == 0, "hostile" if i % 4 else "plain",
                          "wide" if i % 2 else "small", i))
